@@ -192,7 +192,7 @@ def run(chk):
                 "assignment on 3D-marker, force/torque and EMG blocks (frame counts 1-9, given to the constructor or assigned to the still-empty block; 0 or 2 prior tracks); the objects: a "
                 "track of the right length, one frame short, one frame long, empty, an int, None, a str, a track of another "
                 "class, at every position of lists of length 0-3 (as list, tuple and generator), and non-iterable right-hand "
-                "sides, and right-hand sides derived lazily from the block's own tracks (generator expression, filter, map, islice, iter, the list itself, reversed); observed after each call: exception class, identity and frame counts of block.tracks; non-trivial = "
+                "sides, lists that equal the current tracks element-wise under numpy broadcasting but hold one wrong-length track, and right-hand sides derived lazily from the block's own tracks (generator expression, filter, map, islice, iter, the list itself, reversed); observed after each call: exception class, identity and frame counts of block.tracks; non-trivial = "
                 "contains an invalid object")
     runs, done = [], []
     for kind, nfr, prior, seq, uni, how in jobs:
@@ -214,6 +214,65 @@ def run(chk):
         if chk.n_found() >= 3:
             break
     check_decoded(chk)
+    equal_looking_lists(chk)
+
+
+def equal_looking_lists(chk):
+    """a list that LOOKS like the block's current tracks — same labels, element-wise `==` to them under numpy's
+    broadcasting — but holds a track of the wrong length: a marker / sensor that does not move (every frame the same
+    row), and in the list a 1-frame (or, in a 1-frame block, 0-frame) track with that label and that row.  The
+    assignment is refused and the previous tracks stay; adding such a track is refused too."""
+    import numpy as np
+    from basictdf.tdfData3D import Data3D, MarkerTrack
+    from basictdf.tdfForce3D import ForceTorque3D, ForceTorqueTrack
+    rng = common.rng_for(chk.seed, "C16equal")
+
+    def track(kind, label, n, row):
+        a = np.tile(np.array(row, dtype="<f4"), (n, 1))
+        return MarkerTrack(label, a) if kind == "D3" else ForceTorqueTrack(label, a.copy(), a.copy(), a.copy())
+    for j in range(60 if chk.tier == "quick" else 600):
+        kind = ("D3", "FT")[j % 2]
+        nfr = rng.choice((1, 2, 5, 12))
+        b = api.make_block(kind, nfr)
+        ntr = rng.choice((1, 2, 3))
+        rows = [[float(rng.randrange(-5, 6)) for _ in range(3)] for _ in range(ntr)]
+        labels = ["static%d" % i for i in range(ntr)]
+        for lab, row in zip(labels, rows):
+            b.add_track(track(kind, lab, nfr, row))
+        before = list(api.items_of(kind, b))
+        k = rng.randrange(ntr)
+        wrong_n = 1 if nfr > 1 else 0
+        how = j % 3
+        cand = [t if (how == 0) else track(kind, t.label, nfr, rows[i]) for i, t in enumerate(before)]     # the same objects, or equal copies
+        cand[k] = track(kind, labels[k], wrong_n, rows[k])
+        chk.note_case(("equal-looking list", kind, nfr, ntr, k, how), True)
+        chk.count("equal-looking list with one wrong-length track")
+        what = {"kind": kind, "nframes": nfr, "tracks": ntr, "position_of_the_wrong_track": k, "its_frames": wrong_n,
+                "other_elements": "the block's own track objects" if how == 0 else "equal copies"}
+        try:
+            b.tracks = cand
+            rc = None
+        except Exception as e:
+            rc = api.exc_name(e)
+        after = list(api.items_of(kind, b))
+        lens = [getattr(t, "nFrames", None) for t in after]
+        found = None
+        if any(l != nfr for l in lens):
+            found = "the block (%d frames) now holds tracks of %r frames" % (nfr, lens)
+        elif rc is None:
+            found = "a list holding a %d-frame track was accepted by a %d-frame block" % (wrong_n, nfr)
+        elif len(after) != len(before) or any(x is not y for x, y in zip(after, before)):
+            found = "the assignment raised %s but the previous tracks are not in place" % rc
+        if not found:
+            try:
+                b.add_track(track(kind, labels[k], wrong_n, rows[k]))
+                found = "add_track accepted a %d-frame track into a %d-frame block" % (wrong_n, nfr)
+            except Exception:
+                if [getattr(t, "nFrames", None) for t in api.items_of(kind, b)] != [nfr] * ntr:
+                    found = "a refused add_track changed the block"
+        if found:
+            chk.violation("C16 %s: %s [tracks that do not move; the list equals the current tracks element-wise under broadcasting]" % (kind, found), what, True)
+            return
 
 
 def check_decoded(chk):
